@@ -11,7 +11,8 @@ def action_cmd(name, sleep_s, exit_code=0):
             % (name, LEDGER, sleep_s, name, exit_code, LEDGER, exit_code))
 
 
-def gen_play(rng, fail_at=None, tolerated=False, nacts=None, repeat=None, long_actions=True, spotlight=None, cleanup=None):
+def gen_play(rng, fail_at=None, tolerated=False, nacts=None, repeat=None, long_actions=True, spotlight=None, cleanup=None,
+             tolerated_before=False):
     """returns dict(text, actions{name:(sleep, exit)}, tempo_ms, story)"""
     actors = ["a", "b", "c"][:rng.range(1, 3)]
     tempo = rng.pick([40, 60, 80, 120])
@@ -23,7 +24,7 @@ def gen_play(rng, fail_at=None, tolerated=False, nacts=None, repeat=None, long_a
         used = [a for a in actors if rng.chance(2, 3)] or [actors[0]]
         for a in used:
             steps = []
-            for k in range(rng.range(1, 2 if len(used) > 1 else 3)):
+            for k in range(rng.range(2 if tolerated_before else 1, 2 if (len(used) > 1 and not tolerated_before) else 3)):
                 nm = "%s%s%d" % (ch, a, k)
                 d = rng.pick([0, 0.01, 0.02, 0.03] + ([0.1, 0.15, 0.2] if long_actions else []))
                 actions[nm] = [d, 0]
@@ -47,9 +48,19 @@ def gen_play(rng, fail_at=None, tolerated=False, nacts=None, repeat=None, long_a
         acts.append("".join(cols))
     # failure injection: the n-th action name in script order fails
     marks = {}
+    # `?` marks on actions that succeed anyway: they must not change anything
+    for nm in sorted(actions):
+        if rng.chance(1, 5):
+            marks[nm] = "?"
     if fail_at is not None:
         names = sorted(actions)
-        nm = names[fail_at % len(names)]
+        if tolerated_before:
+            # the failing action follows, in its own line, an action that carries a `?`
+            later = [n for n in names if not n.endswith("0")]
+            nm = later[fail_at % len(later)]
+            marks[nm[:-1] + str(int(nm[-1]) - 1)] = "?"
+        else:
+            nm = names[fail_at % len(names)]
         actions[nm][1] = 3
         marks[nm] = "?" if tolerated else ""
     out = ["role r"]
@@ -71,7 +82,8 @@ def gen_play(rng, fail_at=None, tolerated=False, nacts=None, repeat=None, long_a
             out.append("  repeat time %s" % repeat["time"])
     out.append("end")
     return {"text": "\n".join(out) + "\n", "actions": actions, "tempo_ms": tempo, "acts": acts, "actors": actors,
-            "failing": [n for n, (d, e) in actions.items() if e != 0], "tolerated": tolerated}
+            "failing": [n for n, (d, e) in actions.items() if e != 0], "tolerated": tolerated,
+            "marked": sorted(n for n, m in marks.items() if m == "?")}
 
 
 def play_tokens(play_json):
